@@ -1,12 +1,18 @@
 """C01 Upload then download returns every file byte-for-byte."""
-from checks import up_common
+import json
+
+from checks import pf_common, up_common
 
 PROPS = ["C01"]
 
 
 def check(ctx):
+    # the worker pool under upload_async / download_async: results in input order, a failing closure is reported
+    pf_common.run(ctx)
     up_common.run_all(ctx, PROPS, faults=1)
 
 
 def replay(ctx, path):
+    if json.loads(open(path).readline()).get("ev") == "PfSetup":
+        return 0 if pf_common.validate(ctx, path, "replay") else 1
     return 0 if up_common.validate(ctx, path, "replay", PROPS) else 1
